@@ -1137,7 +1137,9 @@ class CParser:
             self._expect("SEMI")
             return self._build_declarations(spec=spec, decls=decls)
 
-        if len(spec["type"]) == 1:
+        # An _Atomic(type-name) specifier alone declares nothing: let the
+        # no-declarator path below report it, as at file scope.
+        if len(spec["type"]) == 1 and not isinstance(spec["type"][0], c_ast.Typename):
             node = spec["type"][0]
             if isinstance(node, c_ast.Node):
                 decl_type = node
